@@ -7,9 +7,9 @@ CONSTANTS
   A6 = {}
   Vsws = {1, 2}
   Toks = {1, 2}
-  MaxHttp = 3
-  MaxFaults = 2
-  MaxCalls = 3
+  MaxHttp = 2
+  MaxFaults = 1
+  MaxCalls = 2
   V6On = FALSE
   GenOn = FALSE
   MaxLen = 0
